@@ -880,7 +880,7 @@ fn parse_show_index(out: &str) -> Option<Vec<Rec>> {
     Some(v)
 }
 
-fn main() {
+pub fn main() {
     let mut ck = Check::new("C09", "exploration");
     ck.rule("id sets of size {0,1,2,3..20,20..300,300..2000} in classes {uniform, one fan-out bucket (0x00/0xff/0x01/0xfe/0x7f/0x80/random), buckets 0x00 and 0xff only, long common prefix of 2..39 digits, differing only in the last 1..3 nibbles, clusters}; offsets in regimes {all < 2^31, mixed with the values around 2^31 and 2^32, all >= 2^31 up to 2^63}; random CRCs; idx v1 and v2, also with small offsets in the 64-bit table. Written by a harness idx writer (arbitrary ids), by gitoxide's index writer (ids = hashes of blobs chosen from a 2^18-entry table to hit buckets/shared prefixes), by gitoxide's multi-index writer over 1..5 indices with shared ids, and by git (pack-objects, index-pack --index-version, multi-pack-index write). Queries per index: present ids (all if <= 64), absent ids (one digit flipped, last byte +1, other bucket, zero, ff, random), prefixes of every length 4..=40 of present ids and of ids differing in one digit. Non-trivial: a hit in bucket 0x00/0xff, an offset >= 2^31, or a prefix with >= 2 matches. Distinct by hash of the written records and file version.");
     ck.assume("the oracle is a linear scan over the records the harness put into the index (prefix matching on lower-case hex strings)");
